@@ -11,6 +11,8 @@
 //   up n                     close n elements (never the root)
 // Any op list is a valid case (names are sanitised, depths clamped).
 #include "common/vfrc.h"
+#include <sys/stat.h>
+#include <unistd.h>
 #include "common/ref_xmltree.h"
 #include "common/ref_codec.h"
 #include <asl/Xml.h>
@@ -241,6 +243,30 @@ static void round_trip(const Node& model, bool formatted)
 	refxml::normalise(got);
 	std::string d = refxml::diff(want, got);
 	VF_CHECK(d.empty(), mname, ": decode(encode(tree)) differs at ", d, " ; encoded ", vf::show(encs, 300));
+	if (formatted) {
+		// the file wrappers of the same pair: Xml::write stores the indented encoding (after an XML declaration), Xml::read
+		// decodes the file's content -- same domain and same oracle as the indented clause
+		static std::string path;
+		if (path.empty()) {
+			const char* t = getenv("VF_TMPDIR");
+			std::string dir = std::string(t ? t : "build/tmp");
+			mkdir(dir.c_str(), 0755);
+			path = dir + "/c07_" + std::to_string(getpid()) + ".xml";
+		}
+		bool ok = Xml::write(tree, String(path.c_str()));
+		VF_CHECK(ok, "Xml::write returned false for ", path);
+		Xml fromfile = Xml::read(String(path.c_str()));
+		unlink(path.c_str());
+		VF_CHECK(!!fromfile, "Xml::read(Xml::write(tree)) is the null element; indented encoding ", vf::show(encs, 300));
+		Node got2;
+		size_t nodes2 = 0;
+		std::string w2 = refxml::walk(fromfile, got2, nodes2, encs.size() + 64);
+		VF_CHECK(w2.empty(), "Xml::read(Xml::write(tree)): ", w2);
+		refxml::normalise(got2);
+		std::string d2 = refxml::diff(want, got2);
+		VF_CHECK(d2.empty(), "Xml::read(Xml::write(tree)) differs at ", d2, " ; indented encoding ", vf::show(encs, 300));
+		vf::stats().cls("B.file_write_read_round_trip");
+	}
 }
 
 static void part_b(const Node& model, int mode)
